@@ -1,4 +1,4 @@
-use proc_macro2::TokenStream;
+use proc_macro2::{TokenStream, TokenTree};
 use quote::quote;
 use std::default::Default;
 use syn::{parse_quote, DeriveInput, Ident, LitStr, Path, Visibility};
@@ -155,11 +155,18 @@ impl HasTypeProperties for DeriveInput {
                 if let Some(ident) = list.path.get_ident() {
                     if ident == "repr" {
                         // An item can carry several `#[repr(..)]` attributes; their hints add up.
-                        let hints = &list.tokens;
-                        output.enum_repr = Some(match output.enum_repr.take() {
-                            Some(previous) => quote! { #previous, #hints },
-                            None => hints.clone(),
-                        });
+                        // A list may end in a comma (`#[repr(u8,)]`) or be empty.
+                        let mut hints: Vec<TokenTree> = list.tokens.clone().into_iter().collect();
+                        if matches!(hints.last(), Some(TokenTree::Punct(p)) if p.as_char() == ',') {
+                            hints.pop();
+                        }
+                        if !hints.is_empty() {
+                            let hints: TokenStream = hints.into_iter().collect();
+                            output.enum_repr = Some(match output.enum_repr.take() {
+                                Some(previous) => quote! { #previous, #hints },
+                                None => hints,
+                            });
+                        }
                     }
                 }
             }
